@@ -209,8 +209,13 @@ def endpoints(p, n):
     v0 = [z3.simplify(tv(c)).as_signed_long() for c in c0]
     vl = [z3.simplify(tv(c)).as_signed_long() for c in cl]
     ok = all(v == 0 for v in v0) and (n != 2 or vl == [(1 << p) - 1, 0])
+    # and the other direction: d(0..0) = 0 and, for n = 2, d(2^p - 1, 0) = 4^p - 1
+    bv = lambda v: SInt(z3.BitVecVal(v, W))  # noqa: E731
+    d0 = z3.simplify(tv(d_from_c(it, p, [bv(0)] * n))).as_signed_long()
+    dl = z3.simplify(tv(d_from_c(it, p, [bv((1 << p) - 1)] + [bv(0)] * (n - 1)))).as_signed_long() if n * p <= 62 else None
+    ok = ok and d0 == 0 and (n != 2 or dl == (1 << (n * p)) - 1) and (n != 1 or dl is None or dl == (1 << p) - 1)
     return {'status': 'holds' if ok else 'violated', 'encoded': it.encoded, 'formula_size': 1, 'queries': 1,
-            'inputs': {'first': v0, 'last': vl}, 'solver_s': 0.0}
+            'inputs': {'first': v0, 'last': vl, 'd_first': d0, 'd_last': dl}, 'solver_s': 0.0}
 
 
 # ------------------------------------------------------------------------------------------------ replay (real jitted code)
